@@ -24,6 +24,7 @@ func init() {
 	}, func(c *Ctx) {
 		ruleR04a(c)
 		ruleR04b(c)
+		ruleR04c(c)
 	})
 }
 
@@ -68,13 +69,15 @@ type qFacts struct {
 	from        map[string]token.Pos // partitioned tables named as FROM
 	joins       []string             // problems found in joins
 	ledgerWhere bool
+	ledgerQ     map[string]token.Pos // qualifiers of the `q.ledger = ?` predicates seen ("" = unqualified)
+	aliases     map[string]bool      // aliases given to the FROM tables
 	withNames   map[string]bool
 	bodyOf      map[string]bool // this chain is the body of the CTE(s) of these names
 	problems    []string
 }
 
 func newQFacts() *qFacts {
-	return &qFacts{from: map[string]token.Pos{}, withNames: map[string]bool{}, bodyOf: map[string]bool{}}
+	return &qFacts{from: map[string]token.Pos{}, withNames: map[string]bool{}, bodyOf: map[string]bool{}, ledgerQ: map[string]token.Pos{}, aliases: map[string]bool{}}
 }
 
 func (a *qFacts) merge(b *qFacts) {
@@ -87,6 +90,12 @@ func (a *qFacts) merge(b *qFacts) {
 		}
 	}
 	a.ledgerWhere = a.ledgerWhere || b.ledgerWhere
+	for k, v := range b.ledgerQ {
+		a.ledgerQ[k] = v
+	}
+	for k := range b.aliases {
+		a.aliases[k] = true
+	}
 	a.problems = append(a.problems, b.problems...)
 	for k := range b.withNames {
 		a.withNames[k] = true
@@ -97,6 +106,7 @@ var (
 	reJoinTable = regexp.MustCompile(`(?is)\bjoin\s+(lateral\s+)?(\(\s*select\b.*?\bfrom\s+)?([a-z_][a-z0-9_]*)\s*(\()?`)
 	reIdent     = regexp.MustCompile(`^\s*"?([a-zA-Z_][a-zA-Z0-9_]*)"?\s*(\(|$|\s)`)
 	reSeqKey    = regexp.MustCompile(`(?i)\b[a-z_]*\.?(accounts_seq|transactions_seq|seq)\s*=\s*[a-z_]+\.(accounts_seq|transactions_seq|seq)\b`)
+	reTableAlias = regexp.MustCompile(`(?i)^\s*"?[a-z_][a-z0-9_]*"?\s+(as\s+)?([a-z_][a-z0-9_]*)\s*$`)
 	reLedgerQ   = regexp.MustCompile(`(?i)(^|[\s(])([a-z_][a-z0-9_]*\.)?ledger\s*=\s*\?`)
 )
 
@@ -236,6 +246,9 @@ func (qa *qAnalyzer) analyse(fn *ssa.Function) (classes map[ssa.Value]*qFacts, f
 					}
 				} else if qa.ls.partitioned[name] {
 					f.from[name] = e.call.Pos()
+					if am := reTableAlias.FindStringSubmatch(s); am != nil {
+						f.aliases[strings.ToLower(am[2])] = true
+					}
 				}
 			}
 		case "Join":
@@ -280,6 +293,9 @@ func (qa *qAnalyzer) analyse(fn *ssa.Function) (classes map[ssa.Value]*qFacts, f
 					}
 					if okBound {
 						f.ledgerWhere = true
+						for _, m := range reLedgerQ.FindAllStringSubmatch(s, -1) {
+							f.ledgerQ[strings.ToLower(strings.TrimSuffix(m[2], "."))] = e.call.Pos()
+						}
 					} else {
 						f.problems = append(f.problems, "`ledger = ?` is bound to something else than Store.name")
 					}
@@ -402,6 +418,27 @@ func ruleR04a(c *Ctx) {
 				c.ok(rule, key, it.f.from[it.table], "reads the CTE `"+it.table+"` defined with With(…) in this function")
 				continue
 			}
+			if it.f.ledgerWhere && len(it.f.ledgerQ) > 0 {
+				// qualified predicates must qualify a table of this chain (or its alias)
+				own := false
+				var foreign []string
+				for q := range it.f.ledgerQ {
+					if q == "" || it.f.aliases[q] {
+						own = true
+						continue
+					}
+					if _, isFrom := it.f.from[q]; isFrom {
+						own = true
+						continue
+					}
+					foreign = append(foreign, q)
+				}
+				if !own {
+					sort.Strings(foreign)
+					c.bad(rule, key, it.f.from[it.table], fmt.Sprintf("the only ledger predicate of the chain selecting from %s is qualified by %v, which is not a table of this chain: it constrains an outer row and leaves %s unscoped", it.table, foreign, it.table))
+					continue
+				}
+			}
 			c.check(it.f.ledgerWhere, rule, key, it.f.from[it.table], "the chain selecting from "+it.table+" carries `ledger = ?` bound to Store.name",
 				"a query selects from the ledger-partitioned table "+it.table+" without a `ledger = ?` predicate bound to Store.name: it returns the rows of every ledger sharing the bucket")
 		}
@@ -409,6 +446,120 @@ func ruleR04a(c *Ctx) {
 	if nChains < 8 {
 		c.undecided(rule, "floor:query-chains", token.NoPos, fmt.Sprintf("only %d query chains naming a partitioned table found in package ledgerstore", nChains))
 	}
+}
+
+func qualsOf(ref sqlTableRef) map[string]bool {
+	q := map[string]bool{ref.Table: true}
+	if ref.Alias != "" {
+		q[ref.Alias] = true
+		delete(q, ref.Table) // an aliased table is only visible under its alias
+	}
+	return q
+}
+
+// ---- R04c: SQL fragments assembled in Go ------------------------------------------------------------
+//
+// Filters and joins are also written as raw SQL text (constants, concatenations, Sprintf) handed to bun.
+// Every text a string expression of package ledgerstore can denote is scanned: each (sub-)select, join,
+// update or delete naming a ledger-partitioned table must carry, in its own scope, `[q.]ledger = ?` with
+// q absent or the table/alias itself, or be keyed by a sequence of another row.
+func ruleR04c(c *Ctx) {
+	const rule = "R04c"
+	ls := loadLedgerSchema(c, rule)
+	if ls == nil {
+		return
+	}
+	rhs := func(toks []sqlTok, i int) (int, bool) {
+		if i < len(toks) && (toks[i].Text == "?" || toks[i].Text == "_ledger") {
+			return i + 1, true
+		}
+		return i, false
+	}
+	nFrag := 0
+	seenKey := map[string]bool{}
+	ordOf := map[string]map[ssa.Instruction]int{}
+	for _, fn := range c.FuncsIn(pkgLedgerstore) {
+		if len(fn.Blocks) == 0 || fn.Synthetic != "" {
+			continue
+		}
+		if strings.HasSuffix(c.Fset.Position(fn.Pos()).Filename, "migrations_v1.go") {
+			continue
+		}
+		for _, b := range fn.Blocks {
+			for _, ins := range b.Instrs {
+				var ops []*ssa.Value
+				for _, op := range ins.Operands(ops) {
+					if *op == nil || !isStringType((*op).Type()) || isStringBuilding(ins, *op) {
+						continue
+					}
+					for _, text := range strVariants(*op) {
+						low := strings.ToLower(text)
+						if !strings.Contains(low, "from") && !strings.Contains(low, "join") && !strings.Contains(low, "update") {
+							continue
+						}
+						toks := sqlTokenize(text, 0)
+						for _, ref := range tableRefs(toks, ls.partitioned) {
+							if ref.Verb == "insert" {
+								continue
+							}
+							nFrag++
+							lo, hi := scopeOf(toks, ref.Idx)
+							d := toks[ref.Idx].Depth
+							q := qualsOf(ref)
+							base := fmt.Sprintf("%s:fragment:%s-%s", fnName(fn), ref.Verb, ref.Table)
+							if ordOf[base] == nil {
+								ordOf[base] = map[ssa.Instruction]int{}
+							}
+							if _, ok := ordOf[base][ins]; !ok {
+								ordOf[base][ins] = len(ordOf[base]) + 1
+							}
+							key := fmt.Sprintf("%s#%d", base, ordOf[base][ins])
+							pos := ins.Pos()
+							if !pos.IsValid() {
+								pos = fn.Pos()
+							}
+							switch {
+							case hasLedgerPredicate(toks, lo, hi, d, rhs, q):
+								if !seenKey[key] {
+									c.ok(rule, key, pos, "the fragment's scope carries a ledger predicate on "+ref.Table)
+								}
+							case hasSeqKey(toks, lo, hi, d, q):
+								if !seenKey[key] {
+									c.ok(rule, key, pos, "the fragment's scope is keyed by a sequence of another row")
+								}
+							case scopeHasDyn(toks, lo, hi):
+								c.undecided(rule, key, pos, "the scope reading "+ref.Table+" contains text that is not a compile-time constant: its ledger predicate cannot be read")
+							default:
+								c.bad(rule, key, pos, fmt.Sprintf("an SQL fragment reads %s (%s) without a ledger predicate on that table in its own scope (`[%s.]ledger = ?`) and without a sequence key: rows of the other ledgers of the bucket are read. Fragment: %s", ref.Table, ref.Verb, ref.Table, oneLine(text)))
+							}
+							seenKey[key] = true
+						}
+					}
+				}
+			}
+		}
+	}
+	c.NSites += nFrag
+	if nFrag < 4 {
+		c.undecided(rule, "floor:sql-fragments", token.NoPos, fmt.Sprintf("only %d SQL fragments naming a partitioned table found in package ledgerstore", nFrag))
+	}
+}
+
+func scopeHasDyn(toks []sqlTok, lo, hi int) bool {
+	for i := lo; i < hi; i++ {
+		if strings.Contains(toks[i].Text, dynMark) {
+			return true
+		}
+	}
+	return false
+}
+
+func oneLine(s string) string {
+	s = strings.Join(strings.Fields(s), " ")
+	if len(s) > 220 {
+		s = s[:220] + "…"
+	}
+	return s
 }
 
 // ---- R04b ------------------------------------------------------------------------------------
@@ -464,7 +615,7 @@ func ruleR04b(c *Ctx) {
 				c.check(hasCol && hasVal, rule, key, token.NoPos, "the insert sets the ledger column from _ledger / new.ledger", fmt.Sprintf("SQL function %s inserts into %s without setting the ledger column from its ledger argument (line %d)", f.Name, ref.Table, ref.Line))
 				continue
 			}
-			okPred := hasLedgerPredicate(f.Body, lo, hi, d, ledgerRHS)
+			okPred := hasLedgerPredicate(f.Body, lo, hi, d, ledgerRHS, qualsOf(ref))
 			if !okPred {
 				if why, isSeq := seqKeyedFuncs[f.Name]; isSeq && scopeHasSeqKey(f.Body, lo, hi, d) {
 					c.ok(rule, key, token.NoPos, "exempt: "+why)
